@@ -11,7 +11,8 @@ CASE_TIMEOUT = 0.3
 MODEL_CASE_TIMEOUT = 3.0
 RULE = ("programs with 1-6 DATA lines placed before, between and after the reading code (also inside IF branches and after END), "
         "0-8 constants of every type each, READ lists into every variable type, RESTORE / RESTORE n sequences, loops that read, "
-        "preceded by random edit histories (replace, delete, re-enter, an earlier RUN); non-trivial = at least two READs executed "
+        "preceded by random edit histories (replace, delete, re-enter, an earlier RUN); sessions in which a program stops after k READs "
+        "(STOP, END, error) and direct-mode READ / RESTORE / CLEAR / CONT follow, with an index-naming oracle for the pointer; non-trivial = at least two READs executed "
         "or an OUT OF DATA / conversion error; distinct = distinct final program + history")
 ASSUMPTIONS = ["edit histories are replayed through Runtime::enter; the reference run uses the final listing"]
 EXHAUSTIVE = {"quick": False, "thorough": False}
